@@ -848,6 +848,7 @@ class TurtleWriter:
         self.use_base = via is not None
         self.used = set()
         self.flags = set()
+        self._ns_for = {self.pe: NS_E, self.po: NS_O}
 
     def relative(self, s):
         """a relative reference for s against the document's base: any RFC 3986 kind that resolves to s (own resolver);
@@ -900,7 +901,7 @@ class TurtleWriter:
         rng = self.rng
         if predicate and s == RDF + "type" and rng.random() < 0.7:
             return "a"
-        for ns, pfx in ((NS_E, self.pe), (NS_O, self.po), (XSDNS, "xsd"), (RDF, "rdf")):
+        for ns, pfx in ((self._ns_for[self.pe], self.pe), (self._ns_for[self.po], self.po), (XSDNS, "xsd"), (RDF, "rdf")):
             if s.startswith(ns) and rng.random() < 0.65:
                 loc = self.pn_local(s[len(ns):])
                 if loc is not None:
@@ -1012,25 +1013,65 @@ class TurtleWriter:
             lines.insert(0 if need_base_first else rng.randrange(len(lines) + 1), b)
         return "".join(ln + self.ws(True) for ln in lines)
 
+    def redeclare(self):
+        """render the prefixes used since the last call as directives and swap the meaning of the two main prefixes: what
+        follows uses the same prefix names for the other namespaces (a prefix may be re-declared at any point)"""
+        head = self.header()
+        self.used = set()
+        self._ns_for = {self.pe: NS_O, self.po: NS_E} if self._ns_for[self.pe] == NS_E else {self.pe: NS_E, self.po: NS_O}
+        return head
+
     def turtle(self, sts):
+        rng = self.rng
+        if len(sts) >= 2 and rng.random() < 0.35:
+            k = rng.randrange(1, len(sts))
+            body1 = "".join(self.statement(s, p) + self.ws(True) for s, p in sts[:k])
+            head1 = self.redeclare()
+            body2 = "".join(self.statement(s, p) + self.ws(True) for s, p in sts[k:])
+            via, self.via = self.via, None          # the base directive is written once, in the first header
+            head2 = self.header()
+            self.via = via
+            self.flags.add("prefix_redeclared")
+            return head1 + body1 + head2 + body2
         body = "".join(self.statement(s, p) + self.ws(True) for s, p in sts)
         return self.header() + body
 
     def trig(self, default_sts, named):
         rng = self.rng
-        blocks = []
-        for s, p in default_sts:
-            if rng.random() < 0.5:
-                blocks.append(self.statement(s, p) + self.ws(True))
-            else:
-                blocks.append("{" + self.ws(False) + self.statement(s, p, final_dot=rng.random() < 0.5) + self.ws(True) + "}" + self.ws(True))
-        for gname, sts in named:
-            gtxt = self.obj(gname)
-            kw = rng.choice(["GRAPH ", "graph ", ""])
-            inner = ""
-            for i, (s, p) in enumerate(sts):
-                inner += self.statement(s, p, final_dot=(i < len(sts) - 1 or rng.random() < 0.5)) + self.ws(True)
-            blocks.append(kw + gtxt + self.ws(True) + "{" + self.ws(False) + inner + "}" + self.ws(True))
+
+        def default_blocks():
+            out = []
+            for s, p in default_sts:
+                if rng.random() < 0.5:
+                    out.append(self.statement(s, p) + self.ws(True))
+                else:
+                    out.append("{" + self.ws(False) + self.statement(s, p, final_dot=rng.random() < 0.5) + self.ws(True) + "}" + self.ws(True))
+            return out
+
+        def named_blocks():
+            out = []
+            for gname, sts in named:
+                gtxt = self.obj(gname)
+                kw = rng.choice(["GRAPH ", "graph ", ""])
+                inner = ""
+                for i, (s, p) in enumerate(sts):
+                    inner += self.statement(s, p, final_dot=(i < len(sts) - 1 or rng.random() < 0.5)) + self.ws(True)
+                out.append(kw + gtxt + self.ws(True) + "{" + self.ws(False) + inner + "}" + self.ws(True))
+            return out
+
+        if default_sts and named and rng.random() < 0.4:
+            first, second = (default_blocks, named_blocks) if rng.random() < 0.5 else (named_blocks, default_blocks)
+            b1 = first()
+            head1 = self.redeclare()
+            b2 = second()
+            via, self.via = self.via, None
+            head2 = self.header()
+            self.via = via
+            rng.shuffle(b1)
+            rng.shuffle(b2)
+            self.flags.add("prefix_redeclared")
+            return head1 + "".join(b1) + head2 + "".join(b2)
+        blocks = default_blocks() + named_blocks()
         rng.shuffle(blocks)
         return self.header() + "".join(blocks)
 
@@ -1048,12 +1089,27 @@ def mk2(t):
     return Literal(t[1], datatype=URIRef(t[2][1]))
 
 
+def xml_canon(lex):
+    """an rdf:XMLLiteral up to the spelling of its XML: element and attribute names resolved to (namespace, local name)"""
+    import xml.etree.ElementTree as ET
+    try:
+        root = ET.fromstring("<r>" + lex + "</r>")
+    except Exception:  # noqa: BLE001
+        return "ILL-FORMED:" + lex
+
+    def walk(e):
+        return [e.tag, sorted(e.attrib.items()), e.text or "", [walk(c) for c in e], e.tail or ""]
+    return json.dumps(walk(root), ensure_ascii=True)
+
+
 def key_of(t):
     """structural key of an rdflib term; blank nodes -> ('B', label)"""
     if isinstance(t, BNode):
         return ("B", str.__str__(t))
     if isinstance(t, Literal):
         dt = None if t.datatype is None else str.__str__(t.datatype)
+        if dt == RDF + "XMLLiteral":
+            return ("L", xml_canon(str.__str__(t)), dt, None)
         if dt == XSDNS + "string":
             dt = None           # RDF 1.1: simple literals are xsd:string
         return ("L", str.__str__(t), dt, None if t.language is None else str.__str__(t.language).lower())
@@ -1143,6 +1199,21 @@ def split_qname(iri):
     return None
 
 
+NS_X = "http://e/x#"
+NS_Y = "http://e/y/"
+_DX = f' xmlns:x="{NS_X}"'
+_DY = f' xmlns:y="{NS_Y}"'
+# meaning (lexical form with every namespace declared where it is used) -> spelling inside a document that declares x: and y: on rdf:RDF
+XML_LITERALS = {
+    f"<x:a{_DX}>1</x:a><x:b{_DX}>2</x:b>": "<x:a>1</x:a><x:b>2</x:b>",
+    f"text <x:a{_DX}><x:b>n</x:b></x:a> mid <x:c{_DX} at=\"v\"/> tail": 'text <x:a><x:b>n</x:b></x:a> mid <x:c at="v"/> tail',
+    f"<x:a{_DX}/><y:b{_DY}/><x:c{_DX}><y:d{_DY}/></x:c><y:e{_DY}>z</y:e>": "<x:a/><y:b/><x:c><y:d/></x:c><y:e>z</y:e>",
+    "just text &amp; more": "just text &amp; more",
+    f"<x:a{_DX}>é</x:a>": "<x:a>é</x:a>",
+    '<z:own xmlns:z="urn:z:">1</z:own><z:own xmlns:z="urn:z:">2</z:own>': '<z:own xmlns:z="urn:z:">1</z:own><z:own xmlns:z="urn:z:">2</z:own>',
+}
+
+
 def rdfxml_document(rng, triples):
     """flat triples -> RDF/XML text with random structural choices (typed node elements, property attributes,
     nested node elements, rdf:parseType="Resource", property attributes on an empty property element, rdf:ID under
@@ -1218,6 +1289,11 @@ def rdfxml_document(rng, triples):
                     raise Bad()
                 typed = o[2] is not None and o[2][0] == "dt"
                 l_ = lang_of(o)
+                if typed and o[2][1] == RDF + "XMLLiteral":
+                    # written with the prefixes of the enclosing document (declared on rdf:RDF): the parser has to add the
+                    # namespace declarations to every top-level element of the literal
+                    elems.append(f'<{q} rdf:parseType="Literal">{XML_LITERALS[o[1]]}</{q}>')
+                    continue
                 if (not typed and attrs_allowed and lang_eq(l_, scope) and rng.random() < 0.35 and q not in seen_attr
                         and not q.startswith("rdf:") and sum(1 for pp, _ in pos if pp == p) == 1):
                     seen_attr.add(q)       # a property attribute takes the language in effect on its element
@@ -1286,6 +1362,7 @@ def rdfxml_document(rng, triples):
     nsdecl = " ".join(f'xmlns:{v}="{xml_esc(k, True)}"' for k, v in nsmap.items())
     base = f' xml:base="{BASE}"' if use_base else ""
     rl = f' xml:lang="{root_lang}"' if root_lang else ""
+    nsdecl += f' xmlns:x="{NS_X}" xmlns:y="{NS_Y}"'
     return head + f"<rdf:RDF {nsdecl}{base}{rl}>\n" + "\n".join(body) + "\n</rdf:RDF>\n"
 
 
@@ -1758,6 +1835,11 @@ def gen_spell_case(rng):
         else:
             sts = g_statements(rng, labels)
             triples = Ev().statements(sts)
+            if fmt == "xml":
+                for _x in range(rng.choice([0, 0, 1, 2])):
+                    triples.append((("I", NS_E + rng.choice(["s", "a"])), ("I", NS_E + rng.choice(["p", "q"])),
+                                    ("L", rng.choice(list(XML_LITERALS)), ("dt", RDF + "XMLLiteral"))))
+                    flags = ["xml_literal"]
             quads = [t + (None,) for t in triples]
             doc = rdfxml_document(rng, triples) if fmt == "xml" else jsonld_document(rng, triples)
         nb = len({tuple(x) for q in quads for x in q if x is not None and x[0] == "B"})
